@@ -99,14 +99,12 @@ def _emission_sets(thorough):
             # split_off, tail moves with multi-byte characters on both sides): every operation instance that succeeds,
             # and every retain mask with every panic point
             ("ok-3", dict(one_op, MaxChars=3, Alphabet="AlphabetSmall", Kinds="BoxGrow", Texts="TextsSmall", InclSet="NoIncl",
-                          Apis="OnlyP", DrainF=1, DrainB=1, MaxPieces=1, OutFilter="OkOnly"), None),
-            ("retain-3", dict(one_op, MaxChars=3, Alphabet="AlphabetSmall", Kinds="KindBox", OpNames="RetainOnly",
-                              OutFilter="OkPanic"), None),
+                          Apis="OnlyP", DrainF=1, DrainB=1, MaxPieces=1, OutFilter="OkInject"), None),
             # every instance of the decoding / formatting constructors
             ("every-ctor", dict(emitc, MaxOps=1, MaxChars=4, StartTexts="SomeStrings", CtorNames="DecodeCtors", MaxSegs=2,
                                 MaxPieces=2), None),
             # seeded random walks
-            ("walks", dict(walk, MaxOps=8), (300, 12, 4)),
+            ("walks", dict(walk, MaxOps=8), (250, 12, 4)),
         ]
     sets = []
     # every string of <= 3 characters x every operation instance, split by kind to bound the size of one TLC run
@@ -141,44 +139,53 @@ def _collect(user_file, name, out, n0):
     return k
 
 
+def _run_set(name, consts, sim, wd, workers):
+    """one emission set -> (list of files with TLC's PrintT output, seconds)"""
+    from concurrent.futures import ThreadPoolExecutor
+    cfg = _cfg(os.path.join(wd, "emit-%s.cfg" % name), consts, ["Emit"], False)
+    t1 = time.time()
+    if sim:
+        num, depth, procs = sim
+
+        def one(i):
+            uf = os.path.join(wd, "emit-%s-%d.out" % (name, i))
+            r = tlc("MC_Str", cfg, workers=1, timeout=2400, simulate=num, depth=depth, xmx="3g",
+                    seed_=seed() * 64 + i, args=("-userFile", uf), metadir=os.path.join(wd, "md-%s-%d" % (name, i)))
+            require_ok(r, "random walks %d" % i)
+            return uf
+        with ThreadPoolExecutor(max_workers=procs) as ex:
+            ufs = list(ex.map(one, range(procs)))
+    else:
+        uf = os.path.join(wd, "emit-%s.out" % name)
+        r = tlc("MC_Str", cfg, workers=workers, timeout=2400, xmx="10g", args=("-userFile", uf),
+                metadir=os.path.join(wd, "md-" + name))
+        require_ok(r, "behaviour emission " + name)
+        ufs = [uf]
+    return ufs, time.time() - t1
+
+
 def emit(thorough, wd):
-    """Runs TLC once per emission set (random walks: several seeded single-worker processes in parallel); writes
-    wd/behaviours.ndjson; returns (path, {set: count}, tlc seconds)."""
+    """Runs TLC once per emission set (random walks: several seeded single-worker processes), the sets concurrently;
+    writes wd/behaviours.ndjson; returns (path, {set: count}, seconds)."""
     from concurrent.futures import ThreadPoolExecutor
     path = os.path.join(wd, "behaviours.ndjson")
     counts = collections.OrderedDict()
     n = 0
     t0 = time.time()
-    with open(path, "w") as out:
-        for name, consts, sim in _emission_sets(thorough):
-            cfg = _cfg(os.path.join(wd, "emit-%s.cfg" % name), consts, ["Emit"], False)
-            t1 = time.time()
-            if sim:
-                num, depth, procs = sim
-
-                def one(i):
-                    uf = os.path.join(wd, "emit-%s-%d.out" % (name, i))
-                    r = tlc("MC_Str", cfg, workers=1, timeout=2400, simulate=num, depth=depth, xmx="3g",
-                            seed_=seed() * 64 + i, args=("-userFile", uf),
-                            metadir=os.path.join(wd, "md-%s-%d" % (name, i)))
-                    require_ok(r, "random walks %d" % i)
-                    return uf
-                with ThreadPoolExecutor(max_workers=procs) as ex:
-                    ufs = list(ex.map(one, range(procs)))
-            else:
-                uf = os.path.join(wd, "emit-%s.out" % name)
-                r = tlc("MC_Str", cfg, workers=6, timeout=2400, xmx="12g", args=("-userFile", uf),
-                        metadir=os.path.join(wd, "md-" + name))
-                require_ok(r, "behaviour emission " + name)
-                ufs = [uf]
-            k = 0
-            for uf in ufs:
-                k += _collect(uf, name, out, n + k)
-            n += k
-            if k == 0:
-                raise ToolError("behaviour emission %s produced nothing" % name)
-            counts[name] = k
-            log("emitted %-22s %8d behaviours (%.0fs)" % (name, k, time.time() - t1))
+    sets = _emission_sets(thorough)
+    with ThreadPoolExecutor(max_workers=2 if thorough else len(sets)) as ex:
+        futs = [(name, ex.submit(_run_set, name, consts, sim, wd, 5 if thorough else 3)) for name, consts, sim in sets]
+        with open(path, "w") as out:
+            for name, fut in futs:
+                ufs, secs = fut.result()
+                k = 0
+                for uf in ufs:
+                    k += _collect(uf, name, out, n + k)
+                n += k
+                if k == 0:
+                    raise ToolError("behaviour emission %s produced nothing" % name)
+                counts[name] = k
+                log("emitted %-22s %8d behaviours (%.0fs)" % (name, k, secs))
     return path, counts, time.time() - t0
 
 
